@@ -161,4 +161,71 @@ Section OpsDoc.
       + destruct m0 as [|y m0]; [reflexivity|].
         unfold agrees. cbn [denote]. fold (mapd (obj_merge (x :: m) (y :: m0))). rewrite mapd_obj_merge. reflexivity.
   Qed.
+
+  (* ---- subtraction ---- *)
+  Lemma filter_map_denote (p : jv -> bool) (q : mv -> bool) l :
+    (forall x, In x l -> p x = q (denote x)) -> map denote (filter p l) = filter q (map denote l).
+  Proof.
+    induction l; intros H; simpl; [reflexivity|]. rewrite <- (H a) by (left; auto).
+    destruct (p a); simpl; rewrite IHl; auto; intros; apply H; right; auto.
+  Qed.
+  Lemma wf_in l x : forallb wf l = true -> In x l -> wf x = true.
+  Proof. intros H I. rewrite forallb_forall in H. auto. Qed.
+  Lemma compare_eq0 x y : wf x = true -> wf y = true -> (compare pf x y =? 0) = meq (denote x) (denote y).
+  Proof. intros. rewrite (compare_doc pf pf_bigint) by auto. rewrite cmp_Z_eq0. reflexivity. Qed.
+  Lemma existsb_map_denote x l : wf x = true -> forallb wf l = true ->
+    existsb (fun y => compare pf x y =? 0) l = existsb (meq (denote x)) (map denote l).
+  Proof.
+    intros WX. induction l; simpl; intros W; [reflexivity|]. apply andb_true_iff in W as [W1 W2].
+    rewrite compare_eq0 by auto. rewrite IHl by auto. reflexivity.
+  Qed.
+
+  Theorem op_sub_doc l r : wf l = true -> wf r = true -> agrees (op_sub pf l r) (s_sub (denote l) (denote r)).
+  Proof.
+    intros WL WR. unfold op_sub.
+    destruct l as [| |a| | | |], r as [| |c| | | |]; try discriminate; try solve [nonnum_cases].
+    - rewrite binop_switch_nums. rewrite !denote_jnum.
+      destruct (norm_num pf a) eqn:EA, (norm_num pf c) eqn:EB; simpl; rewrite ?pf_bigint; auto.
+      apply num_int_denote. apply sub_int_exact; [apply (wf_pnum_int a z)|apply (wf_pnum_int c z0)]; auto.
+    - unfold binop_switch. cbn [norm]. unfold agrees. cbn [denote s_sub]. f_equal.
+      simpl in WL, WR. apply filter_map_denote. intros x I. rewrite existsb_map_denote; auto. eapply wf_in; eauto.
+  Qed.
+
+  (* ---- multiplication ---- *)
+  Lemma bytes_eqb_sym a b : bytes_eqb a b = bytes_eqb b a.
+  Proof.
+    destruct (bytes_eqb a b) eqn:E; symmetry.
+    - apply bytes_cmp_eq. apply bytes_cmp_eq in E. rewrite bytes_cmp_antisym, E. reflexivity.
+    - destruct (bytes_eqb b a) eqn:E2; auto. apply bytes_cmp_eq in E2.
+      assert (bytes_cmp a b = Eq) by (rewrite bytes_cmp_antisym, E2; reflexivity). apply bytes_cmp_eq in H. congruence.
+  Qed.
+  Lemma mget_mapd m k : mget (mapd m) k = option_map denote (obj_get m k).
+  Proof.
+    unfold mget. induction m as [|[k' v] m IH]; simpl; [reflexivity|].
+    rewrite (bytes_eqb_sym k k'). destruct (bytes_eqb k' k); simpl; auto.
+  Qed.
+  Lemma denote_not_obj_num n : forall x, denote (JNum n) <> MObj x.
+  Proof. intros x. rewrite denote_jnum. destruct (norm_num pf n); discriminate. Qed.
+
+  Lemma deep_merge_doc r : forall lm, denote (deep_merge lm r) = s_merge (mapd lm) (denote r).
+  Proof.
+    induction r using jv_ind'; intros lm; try reflexivity.
+    - (* number *) cbn [deep_merge]. pose proof (denote_not_obj_num n). destruct (denote (JNum n)); try reflexivity.
+      exfalso; eapply H; eauto.
+    - (* object *)
+      cbn [deep_merge denote s_merge]. f_equal. fold (mapd m).
+      revert lm. induction H as [|[k v] rm Hv Hrm IH]; intros acc; simpl; [reflexivity|].
+      rewrite IH. f_equal. rewrite mapd_obj_set. f_equal. rewrite mget_mapd.
+      destruct (obj_get acc k) as [w|]; simpl; [|destruct (denote v); reflexivity].
+      destruct w as [| |n| | |mk|]; simpl;
+        try (destruct v; try reflexivity; destruct (denote _); reflexivity).
+      + pose proof (denote_not_obj_num n). destruct (denote_num pf n) eqn:E; try (destruct v; reflexivity).
+        exfalso. eapply H. simpl. eauto.
+      + fold (mapd mk). destruct v as [| |n'| | |vm|]; try reflexivity.
+        * pose proof (denote_not_obj_num n'). destruct (denote (JNum n')) eqn:E; try reflexivity. exfalso; eapply H; eauto.
+        * simpl in Hv. apply Hv.
+  Qed.
+
+  Lemma bcompare_some x y : fis_nan x = false -> fis_nan y = false -> Bcompare x y <> None.
+  Proof. destruct x, y; simpl; try discriminate; intros; unfold Bcompare; simpl; try discriminate; repeat (destruct s; try discriminate); repeat (destruct s0; try discriminate); try (destruct (e ?= e1); try discriminate; destruct (Pos.compare_cont _ _ _); discriminate). Qed.
 End OpsDoc.
